@@ -16,23 +16,6 @@ abbrev scS (k : ℝ) (S : List (Tri ℝ)) : List (Tri ℝ) := S.map (Tri.map (V3
 abbrev scT (k : ℝ) (Ts : List (Tet ℝ)) : List (Tet ℝ) := Ts.map (Tet.map (V3.smul k))
 abbrev scV (k : ℝ) (vs : List (V3 ℝ)) : List (V3 ℝ) := vs.map (V3.smul k)
 
-theorem V3.smul_sub (k : ℝ) (a b : V3 ℝ) : V3.smul k (a - b) = V3.smul k a - V3.smul k b := by
-  ext <;> simp <;> ring
-theorem V3.smul_add (k : ℝ) (a b : V3 ℝ) : V3.smul k (a + b) = V3.smul k a + V3.smul k b := by
-  ext <;> simp <;> ring
-theorem V3.cross_smul (k : ℝ) (a b : V3 ℝ) :
-    V3.cross (V3.smul k a) (V3.smul k b) = V3.smul (k * k) (V3.cross a b) := by
-  ext <;> simp [V3.cross] <;> ring
-theorem V3.dot_smul (k l : ℝ) (a b : V3 ℝ) : V3.dot (V3.smul k a) (V3.smul l b) = k * l * V3.dot a b := by
-  simp [V3.dot]; ring
-theorem V3.get_smul (k : ℝ) (a : V3 ℝ) (i : Nat) : (V3.smul k a).get i = k * a.get i := by
-  unfold V3.get; split_ifs <;> rfl
-theorem V3.norm_smul (k : ℝ) (a : V3 ℝ) : V3.norm (V3.smul k a) = |k| * V3.norm a := by
-  unfold V3.norm V3.normSq
-  rw [V3.dot_smul, Scalar.sqrt_real, Scalar.sqrt_real, Real.sqrt_mul (mul_self_nonneg k), Real.sqrt_mul_self_eq_abs]
-theorem V3.norm_smul_nonneg {k : ℝ} (hk : 0 ≤ k) (a : V3 ℝ) : V3.norm (V3.smul k a) = k * V3.norm a := by
-  rw [V3.norm_smul, abs_of_nonneg hk]
-
 theorem list_sum_map_mul' (c : ℝ) {β : Type} (f g : β → ℝ) (l : List β) (h : ∀ x ∈ l, f x = c * g x) :
     (l.map f).sum = c * (l.map g).sum := by
   rw [List.map_congr_left h, list_sum_map_mul]
